@@ -363,7 +363,7 @@ impl Drop for Zd {
 pub struct W24(pub [u64; 3]);
 
 macro_rules! trivial_elem {
-    ($t:ident, $name:expr, $mk:expr, $show:expr) => {
+    ($t:ident, $name:expr, $mk:expr, $show:expr, $un:expr) => {
         impl fmt::Display for $t {
             fn fmt(&self, f: &mut fmt::Formatter<'_>) -> fmt::Result {
                 write!(f, "{}", self.show())
@@ -385,8 +385,8 @@ macro_rules! trivial_elem {
             fn atom(v: i64) -> Self {
                 ($mk)(v)
             }
-            fn un(_f: i64, e: Self) -> Self {
-                e
+            fn un(f: i64, e: Self) -> Self {
+                ($un)(f, e)
             }
             fn bin(_o: i64, l: Self, _r: Self) -> Self {
                 l
@@ -408,11 +408,11 @@ macro_rules! trivial_elem {
         }
     };
 }
-trivial_elem!(Unit, "unit", |_v: i64| Unit, |_s: &Unit| "_".to_string());
-trivial_elem!(Zd, "zd", |_v: i64| Zd::make(), |_s: &Zd| "_".to_string());
+trivial_elem!(Unit, "unit", |_v: i64| Unit, |_s: &Unit| "_".to_string(), |_f: i64, e: Unit| e);
+trivial_elem!(Zd, "zd", |_v: i64| Zd::make(), |_s: &Zd| "_".to_string(), |_f: i64, e: Zd| e);
 trivial_elem!(W24, "w24", |v: i64| W24([v as u64, 0x1111, 0x2222]), |s: &W24| {
     if s.0[1] != 0x1111 && s.0 != [0, 0, 0] {
         flag("W24 payload corrupted".to_string());
     }
     format!("a{}", s.0[0] as i64)
-});
+}, |f: i64, e: W24| W24([(e.0[0] as i64 + 1_000_000 * (f - 9)) as u64, e.0[1], e.0[2]]));
